@@ -397,6 +397,8 @@ class Ctx(object):
         if v is None:
             return z3.IntVal(0)
         if k == "tuple":
+            if isinstance(v, tuple) and len(v) < len(ty.args) and all(a.kind == "opt" for a in ty.args[len(v):]):
+                v = tuple(v) + (None,) * (len(ty.args) - len(v))     # shorter tuple: optional trailing slots are None
             if not isinstance(v, tuple) or len(v) != len(ty.args):
                 raise VerifError("tuple arity mismatch storing %r as %r" % (v, ty))
             s = sort_of(ty, self.num)
